@@ -1,7 +1,16 @@
-(* C05 — extension additions are forward/backward compatible.  Statements pinned here (step level:
-   the reader's handling of the transmitted presence range; the end-to-end statement over schema pairs
-   is confronted by the correspondence run, see checks/C05.py). *)
+(* C05 — extension additions are forward/backward compatible.  Statements pinned here:
+   - step level (suffix _partial): the reader's handling of the transmitted presence range;
+   - end to end (C05_forward, C05_backward, C05_sentinel_forward, C05_sentinel_backward): schema pairs [extends V1 V2]
+     (appended OPTIONAL/DEFAULT extension additions of an extensible SEQUENCE/SET, appended extension
+     alternatives of an extensible CHOICE, appended items of an extensible ENUMERATED, at top level),
+     every value outside the excluded classes of C01 ([Known_C01]: open types of 16K octets or more etc.),
+     both cargo profiles ([forall m]), any reader source positioned at the message followed by an
+     arbitrary tail ([rsrc s bs tail]); the reader's final state [src_adv s (bl bs) tail] is "exactly at the
+     end of the message".  Proofs in Uper/CompatFullProofs.v over the executable model Uper/Writer.v,
+     Uper/Reader.v and the reference encoder [enc] of Uper/Spec.v ([enc] is what the writer produces:
+     C01_writer_is_reference). *)
 From A1 Require Import Uper.Reader Uper.CompatProofs.
+From A1 Require Import Uper.Spec Uper.Proofs Uper.CompatFullProofs.
 Local Open Scope N_scope.
 
 (* forward (old data, new reader): an addition beyond the transmitted presence bits is absent *)
@@ -56,8 +65,85 @@ Example C05_nonvacuous :
   end.
 Proof. vm_compute. split; [reflexivity|eexists; reflexivity]. Qed.
 
+(** * end to end *)
+(* forward (old data, new reader): every V1 encoding decodes under V2 to the same components with the
+   new additions absent (DEFAULT additions take their default), the reader ending exactly at the end *)
+Theorem C05_forward : forall m V1 V2 v bs s tail,
+  extends V1 V2 -> wf_val V1 v -> ~ Known_C01 m V1 v -> enc m V1 v = Ok bs -> rsrc s bs tail ->
+  read_ty m V2 (r_of_src s) = Ok (pad_absent V1 V2 v, r_of_src (src_adv s (bl bs) tail)).
+Proof. exact C05_forward_thm. Qed.
+
+(* backward (new data, old reader): every V2 encoding decodes under V1 to the components V1 knows,
+   unknown additions skipped; an alternative / item V1 does not know is reported as InvalidChoiceIndex,
+   never as a value *)
+Theorem C05_backward : forall m V1 V2 v bs s tail,
+  extends V1 V2 -> wf_val V2 v -> ~ Known_C01 m V2 v -> enc m V2 v = Ok bs -> rsrc s bs tail ->
+  (known_index V1 v ->
+     read_ty m V1 (r_of_src s) = Ok (project_root V1 V2 v, r_of_src (src_adv s (bl bs) tail))) /\
+  (~ known_index V1 v -> read_ty m V1 (r_of_src s) = Err E_INVALID_CHOICE).
+Proof. exact C05_backward_thm. Qed.
+
+(* the SEQUENCE/SET case in its general form: writer components fsC ++ wx, reader components fsC ++ rx,
+   one of wx / rx empty *)
+Theorem C05_sequence_compat : forall m fsC wx rx so fcW fcR e vals bs s tail,
+  wf_ty (TSeq (fsC ++ wx) so fcW (Some e)) -> wf_ty (TSeq (fsC ++ rx) so fcR (Some e)) ->
+  (S (N.to_nat e) <= length fsC)%nat ->
+  Forall optk rx -> Forall optk wx -> (rx = [] \/ wx = []) ->
+  wf_val (TSeq (fsC ++ wx) so fcW (Some e)) (VSeq vals) ->
+  ~ Known_C01 m (TSeq (fsC ++ wx) so fcW (Some e)) (VSeq vals) ->
+  enc m (TSeq (fsC ++ wx) so fcW (Some e)) (VSeq vals) = Ok bs -> rsrc s bs tail ->
+  read_ty m (TSeq (fsC ++ rx) so fcR (Some e)) (r_of_src s) =
+  Ok (VSeq (firstn (length fsC) vals ++ pad_of rx), r_of_src (src_adv s (bl bs) tail)).
+Proof. exact seq_compat. Qed.
+
+(* data following the message decodes correctly, in both directions *)
+Theorem C05_sentinel_forward : forall m V1 V2 v bs T x bs' s tail,
+  extends V1 V2 -> wf_val V1 v -> ~ Known_C01 m V1 v -> enc m V1 v = Ok bs ->
+  wf_ty T -> wf_val T x -> ~ Known_C01 m T x -> enc m T x = Ok bs' ->
+  rsrc s (bs ++ bs') tail ->
+  exists r1, read_ty m V2 (r_of_src s) = Ok (pad_absent V1 V2 v, r1) /\
+             read_ty m T r1 = Ok (x, r_of_src (src_adv s (bl (bs ++ bs')) tail)).
+Proof. exact C05_sentinel_forward_thm. Qed.
+
+Theorem C05_sentinel_backward : forall m V1 V2 v bs T x bs' s tail,
+  extends V1 V2 -> wf_val V2 v -> ~ Known_C01 m V2 v -> enc m V2 v = Ok bs -> known_index V1 v ->
+  wf_ty T -> wf_val T x -> ~ Known_C01 m T x -> enc m T x = Ok bs' ->
+  rsrc s (bs ++ bs') tail ->
+  exists r1, read_ty m V1 (r_of_src s) = Ok (project_root V1 V2 v, r1) /\
+             read_ty m T r1 = Ok (x, r_of_src (src_adv s (bl (bs ++ bs')) tail)).
+Proof. exact C05_sentinel_backward_thm. Qed.
+
+(* V1 = SEQUENCE { a BOOLEAN, b INTEGER(0..255) OPTIONAL, ..., c BOOLEAN OPTIONAL } (one addition),
+   V2 = V1 + { d OCTET STRING OPTIONAL, e INTEGER(0..255) DEFAULT 7 } (three additions); d carries 130
+   octets (open type of 132 octets: two-octet length); both directions with a sentinel octet after the
+   message; the hypotheses of C05_forward / C05_backward hold for the pair and the two values *)
+Example C05_full_nonvacuous :
+  extends ex5_V1 ex5_V2 /\
+  (wf_val ex5_V1 ex5_v1 /\ ~ Known_C01 dev_mode ex5_V1 ex5_v1) /\
+  (wf_val ex5_V2 ex5_v2 /\ ~ Known_C01 dev_mode ex5_V2 ex5_v2) /\
+  compat_run dev_mode ex5_V1 ex5_V2 ex5_v1 ex5_sentinel (VInt 165)
+    = Some (pad_absent ex5_V1 ex5_V2 ex5_v1, VInt 165, true) /\
+  pad_absent ex5_V1 ex5_V2 ex5_v1
+    = VSeq [Some (VBool true); Some (VInt 9); Some (VBool false); None; Some (VInt 7)] /\
+  compat_run dev_mode ex5_V2 ex5_V1 ex5_v2 ex5_sentinel (VInt 165)
+    = Some (project_root ex5_V1 ex5_V2 ex5_v2, VInt 165, true) /\
+  compat_run release_mode ex5_V2 ex5_V1 ex5_v2 ex5_sentinel (VInt 165)
+    = Some (project_root ex5_V1 ex5_V2 ex5_v2, VInt 165, true) /\
+  project_root ex5_V1 ex5_V2 ex5_v2 = VSeq [Some (VBool true); None; Some (VBool true)] /\
+  match enc dev_mode (TOctets None None false) (VOctets (repeat 171 130)) with
+  | Ok b => (bl b + 7) / 8 = 132
+  | _ => False
+  end.
+Proof. exact nonvacuous_c05. Qed.
+
 Print Assumptions C05_beyond_transmitted_is_absent_partial.
 Print Assumptions C05_no_extension_is_absent_partial.
 Print Assumptions C05_skip_nothing_partial.
 Print Assumptions C05_skip_absent_step_partial.
 Print Assumptions C05_skip_present_step_partial.
+Print Assumptions C05_forward.
+Print Assumptions C05_backward.
+Print Assumptions C05_sequence_compat.
+Print Assumptions C05_sentinel_forward.
+Print Assumptions C05_sentinel_backward.
+Print Assumptions C05_full_nonvacuous.
